@@ -550,6 +550,12 @@ std::string rec_team(const std::string &op, const std::string &ret, const team_t
   std::string out(op + " " + ret + " raw=" + hs(t.signature_));
   out += " fs=" + hs(rebuild(t).signature());
   out += std::string(" valid=") + (t.is_valid() ? "1" : "0");
+  {
+    // the same members in reverse order (team::hash must depend on the order)
+    std::vector<i_mep> rev;
+    for (const auto &m : t) rev.insert(rev.begin(), rebuild(m));
+    out += " rfs=" + hs(team_t(rev).signature());
+  }
   out += " mraw=";
   for (unsigned i(0); i < t.individuals(); ++i) out += (i ? "," : "") + hs(t[i].signature_);
   out += " mfs=";
